@@ -256,7 +256,7 @@ func runC20(c *run.Ctx) {
 		ku = 4
 	}
 	pos := []struct{ pre, post string }{{`<a href=`, `>x</a>`}, {`<img src=`, `>`}, {`<q cite=`, `>x</q>`}}
-	Seqs(c, urlFrags, 1, ku, func(u []byte, _ []int) {
+	SeqsS(c, "url", urlFrags, 1, ku, func(u []byte, _ []int) {
 		q := htmlAttrQuote(string(u))
 		for _, p := range pos {
 			eval(urlSpecs, []byte(p.pre+q+p.post))
@@ -266,7 +266,7 @@ func runC20(c *run.Ctx) {
 	if !c.Quick() {
 		nb = 5
 	}
-	Bytes(c, urlBytes, 1, nb, func(u []byte) {
+	BytesS(c, "urlb", urlBytes, 1, nb, func(u []byte) {
 		eval(urlSpecs[:min(2, len(urlSpecs))], []byte(`<a href=`+htmlAttrQuote(string(u))+`>`))
 	})
 	// link attribute-list layer
@@ -277,7 +277,7 @@ func runC20(c *run.Ctx) {
 		kl = 4
 	}
 	for _, el := range []string{"a", "area", "link"} {
-		Seqs(c, la, 0, kl, func(attrs []byte, _ []int) {
+		SeqsS(c, "link:"+el, la, 0, kl, func(attrs []byte, _ []int) {
 			eval(linkSpecs, []byte("<"+el+string(attrs)+">"))
 		})
 	}
